@@ -168,6 +168,13 @@ class Disposable:
             W.task_owner[name] = self.owner
             W.spawned_by_disposable.add(name)
             W.event("spawned", name, self.owner)
+        if self.spec.get("hold"):
+            # a resource that keeps a haiway block of its own open for its lifetime (entered here, left in __aexit__); whatever
+            # it installs is its own business and must not show in the scope that uses the resource
+            from haiway import ctx
+
+            self._held = ctx.updated(family.make("R1", 770 + self.idx), family.make("D2", 780 + self.idx))
+            self._held.__enter__()
         if how.startswith("gate"):
             await W.sched.gate(f"{self.owner}.d{self.idx}.enter")
         if how.endswith("raise"):
@@ -199,6 +206,12 @@ class Disposable:
         self.exit_calls += 1
         self.exit_args = (et, ev, tb)
         W.event("d-exit", self.owner, self.idx)
+        if getattr(self, "_held", None) is not None:
+            try:
+                self._held.__exit__(None, None, None)
+            except (ValueError, RuntimeError):
+                pass  # entered in another context copy than the one it is left in: tolerated by this resource
+            self._held = None
         how = self.spec.get("exit", "ok")
         if how.startswith("gate"):
             await W.sched.gate(f"{self.owner}.d{self.idx}.exit")
@@ -683,7 +696,7 @@ class Gen:
         kind = r.choice(allowed)
         b: dict[str, Any] = {"op": "block", "kind": kind, "name": f"b{self.bid}", "supply": self.supply(), "body": []}
         if kind == "ascope" and disposables and r.random() < 0.35:
-            b["disposables"] = [{"yield": [[t, self.fresh_uid()] for t in r.sample(family.NAMES, r.choice([0, 1, 1, 2]))], "enter": "ok", "exit": "ok", "form": r.choice(["auto", "auto", "list", "generator", "iter", "map", "tuple"])} for _ in range(r.randint(1, 2))]
+            b["disposables"] = [{"yield": [[t, self.fresh_uid()] for t in r.sample(family.NAMES, r.choice([0, 1, 1, 2]))], "enter": "ok", "exit": "ok", "form": r.choice(["auto", "auto", "list", "generator", "iter", "map", "tuple"]), "hold": r.random() < 0.3} for _ in range(r.randint(1, 2))]
         body = b["body"]
         body.append(self.probe())
         n_children = 0
